@@ -190,6 +190,17 @@ def case(g, tier, ci):
         m["_step"] = step
         ops.append(m)
         ops += [{**o, "_step": step} for o in snap(watch)]
+    arbs = [n for n, f in segs if f == "arb"]
+    if arbs:
+        # the keyword dict of an arb_func segment is handed on by copy() / + / addBluePrint as it is: an edit of it on one
+        # side (by name or by position, with a dict value) must replace it there and leave the other holders alone
+        import userfns
+        forced = list(forced)
+        for oid in r.sample(["b", "bc", "bs"], 2):
+            forced.append({"op": "bp.changeArg", "id": oid, "name": arbs[0], "arg": enc(r.choice(["kwargs", 1])),
+                           "value": enc(dict(userfns.KW_POOL[r.choice([201, 202, 203, 204])]))})
+        forced.append({"op": "el.changeArg", "id": r.choice(["e", "ec"]), "ch": 1, "name": arbs[0], "arg": enc("kwargs"),
+                       "value": enc(dict(userfns.KW_POOL[r.choice([201, 202, 203, 204])]))})
     for m in forced:
         step += 1
         ops.append({**m, "_mut": m["id"], "_step": step})
